@@ -85,16 +85,16 @@ type muxUse struct {
 // behaviour is what the Lean model transcribes and what the correspondence
 // harness probes on the real mux.
 var baseWrappers = map[string]string{
-	homePath + ".postInstall":                      "postInstall",
-	homePath + ".postInstallHandler":               "postInstall",
-	homePath + ".preInstall":                       "preInstall",
-	homePath + ".preInstallHandler":                "preInstall",
-	homePath + ".optionalAuth":                     "optionalAuth",
-	homePath + ".optionalAuthHandler":              "optionalAuth",
-	"github.com/NYTimes/gziphandler.GzipHandler":   "gzip",
-	homePath + ".ensure":                           "ensure",
-	homePath + ".ensureHandler":                    "ensure",
-	homePath + ".withMiddlewares":                  "withMiddlewares",
+	homePath + ".postInstall":                    "postInstall",
+	homePath + ".postInstallHandler":             "postInstall",
+	homePath + ".preInstall":                     "preInstall",
+	homePath + ".preInstallHandler":              "preInstall",
+	homePath + ".optionalAuth":                   "optionalAuth",
+	homePath + ".optionalAuthHandler":            "optionalAuth",
+	"github.com/NYTimes/gziphandler.GzipHandler": "gzip",
+	homePath + ".ensure":                         "ensure",
+	homePath + ".ensureHandler":                  "ensure",
+	homePath + ".withMiddlewares":                "withMiddlewares",
 }
 
 type extractor struct {
@@ -114,6 +114,8 @@ type extractor struct {
 	srcSeen  map[string]bool
 	tmplFns  map[*types.Func]token.Pos // functions holding a non-constant-pattern registration
 	instFns  map[*types.Func]bool      // registrars instantiated at least once
+	tmplLits map[*ast.FuncLit]token.Pos
+	instLits map[*ast.FuncLit]bool
 	valCalls []*pendingCall
 }
 
@@ -126,6 +128,7 @@ type funcInfo struct {
 type source struct {
 	name   string
 	fn     *types.Func // nil for literals
+	lit    *ast.FuncLit
 	typ    *ast.FuncType
 	body   *ast.BlockStmt
 	pkg    *packages.Package
@@ -449,6 +452,9 @@ func (x *extractor) instantiate(src *source, callPkg *packages.Package, call *as
 	if src.fn != nil {
 		x.instFns[src.fn] = true
 	}
+	if src.lit != nil {
+		x.instLits[src.lit] = true
+	}
 	x.execBlock(src, src.body.List, ne, method, site, sitePkg, depth)
 }
 
@@ -580,7 +586,7 @@ func (x *extractor) addFlow(pkg *packages.Package, e ast.Expr, into string) {
 		key := fmt.Sprintf("lit %s:%d", f, l)
 		if !x.srcSeen[key] {
 			x.srcSeen[key] = true
-			x.sources = append(x.sources, &source{name: "func literal " + key[4:], typ: lit.Type, body: lit.Body, pkg: pkg})
+			x.sources = append(x.sources, &source{name: "func literal " + key[4:], lit: lit, typ: lit.Type, body: lit.Body, pkg: pkg})
 		}
 
 		return
@@ -657,19 +663,19 @@ func (x *extractor) walkFile(pkg *packages.Package, file *ast.File, inProgram bo
 
 		return nil
 	}
-	enclosingFunc := func() *types.Func {
+	enclosingFunc := func() (*types.Func, *ast.FuncLit) {
 		for i := len(stack) - 1; i >= 0; i-- {
 			switch f := stack[i].(type) {
 			case *ast.FuncLit:
-				return nil
+				return nil, f
 			case *ast.FuncDecl:
 				o, _ := info.Defs[f.Name].(*types.Func)
 
-				return o
+				return o, nil
 			}
 		}
 
-		return nil
+		return nil, nil
 	}
 	ast.Inspect(file, func(n ast.Node) bool {
 		if n == nil {
@@ -711,10 +717,12 @@ func (x *extractor) walkFile(pkg *packages.Package, file *ast.File, inProgram bo
 				}
 				if _, isConst := x.constString(pkg, v.Args[0], nil); isConst {
 					x.emitMuxReg(pkg, v, nil, "", v, pkg, "direct")
-				} else if fn := enclosingFunc(); fn != nil {
+				} else if fn, lit := enclosingFunc(); fn != nil {
 					x.tmplFns[fn] = v.Pos()
+				} else if lit != nil {
+					x.tmplLits[lit] = v.Pos()
 				} else {
-					x.fail(v.Pos(), "non-constant pattern registered inside a function literal")
+					x.fail(v.Pos(), "non-constant pattern registered outside any function")
 				}
 			} else if x.isRegSig(info.TypeOf(v.Fun)) {
 				x.regCall(pkg, v, nil, v, pkg, 0)
@@ -928,6 +936,9 @@ func main() {
 		srcSeen: map[string]bool{},
 		tmplFns: map[*types.Func]token.Pos{},
 		instFns: map[*types.Func]bool{},
+
+		tmplLits: map[*ast.FuncLit]token.Pos{},
+		instLits: map[*ast.FuncLit]bool{},
 	}
 	if abs, err := filepath.EvalSymlinks(x.repo); err == nil {
 		x.repo = abs
@@ -1057,6 +1068,11 @@ func main() {
 	for fn, p := range x.tmplFns {
 		if !x.instFns[fn] {
 			x.fail(p, "function %s registers a non-constant pattern and is never called with constant arguments", fn.FullName())
+		}
+	}
+	for lit, p := range x.tmplLits {
+		if !x.instLits[lit] {
+			x.fail(p, "a function literal registers a non-constant pattern and never flows into a RegisterFunc location")
 		}
 	}
 
